@@ -11,6 +11,7 @@ From Coq Require Import Strings.String Strings.Ascii ZArith NArith Lia.
 From RV Require Import Base.Text Irc.Str Irc.Parse Irc.State Irc.Monad Irc.Cmds Irc.SCmds Irc.Apply.
 From RV Require Import IrcProofs.WP IrcProofs.Inv IrcProofs.InvPrims IrcProofs.StrLemmas IrcProofs.Handlers IrcProofs.Top.
 From RV Require Import IrcProofs.Outputs IrcProofs.Examples IrcProofs.Recipients2.
+From RV Require IrcProofs.Trim.
 Local Open Scope string_scope.
 
 (* ====================================================================================================== *)
@@ -89,10 +90,48 @@ Qed.
 Lemma msg_bytes_full_head m : exists rest, msg_bytes_full m = head m ++ rest.
 Proof. unfold msg_bytes_full, head. eexists. rewrite StrLemmas.append_assoc. reflexivity. Qed.
 
-Lemma head_kept m : slen (head m) <= 510 -> has_prefix (head m) (msg_bytes m) = true.
+(* send() also removes an incomplete UTF-8 sequence from the end of the line (at most 3 non-ASCII bytes): a head that
+   ends in an ASCII byte — the command word is a non-empty ASCII word — is not touched by it *)
+Fixpoint all_low (s : string) : bool :=
+  match s with EmptyString => true | String c r => (byte_of c <? 128)%N && all_low r end.
+Definition cmd_ok (c : string) : bool := negb (is_empty c) && all_low c.
+
+Lemma all_low_last c r : all_low (String c r) = true ->
+  exists a' d, String c r = a' ++ String d "" /\ (byte_of d < 128)%N.
 Proof.
-  intros H. unfold msg_bytes. destruct (msg_bytes_full_head m) as [rest ->].
-  destruct (stake_app max_length (head m) rest H) as [r ->]. apply has_prefix_app.
+  revert c. induction r as [|c' r IH]; intros c H.
+  - exists "", c. split; [reflexivity|]. cbn [all_low] in H. apply andb_true_iff in H. now apply N.ltb_lt.
+  - cbn [all_low] in H. apply andb_true_iff in H. destruct H as [_ H]. destruct (IH c' H) as (a' & d & Heq & Hd).
+    exists (String c a'), d. split; [|exact Hd]. cbn [append]. now rewrite Heq.
+Qed.
+
+Lemma ends_ascii_head m : cmd_ok (m_cmd m) = true -> Trim.ends_ascii (head m).
+Proof.
+  unfold cmd_ok, head. intros H. apply andb_true_iff in H. destruct H as [Hne Hl].
+  destruct (m_cmd m) as [|c r]; [discriminate|]. destruct (all_low_last c r Hl) as (a' & d & -> & Hd).
+  right. eexists. exists d. split; [|exact Hd]. now rewrite <- StrLemmas.append_assoc.
+Qed.
+
+Lemma byte_of_chr n : (n < 256)%N -> byte_of (chr n) = n.
+Proof. intros H. unfold byte_of, chr. now apply N_ascii_embedding. Qed.
+
+Lemma all_low_to_upper s : all_low (to_upper s) = all_low s.
+Proof.
+  induction s as [|c s IH]; [reflexivity|]. cbn [to_upper all_low]. rewrite IH. f_equal.
+  pose proof (N_ascii_bounded c) as Hb. fold (byte_of c) in Hb. unfold upper_byte, in_range.
+  destruct ((97 <=? byte_of c)%N && (byte_of c <=? 122)%N) eqn:E.
+  - apply andb_true_iff in E. destruct E as [E1 E2]. apply N.leb_le in E1, E2.
+    rewrite byte_of_chr by lia. transitivity true; [apply N.ltb_lt; lia|symmetry; apply N.ltb_lt; lia].
+  - now rewrite byte_of_chr.
+Qed.
+Lemma cmd_ok_to_upper s : cmd_ok (to_upper s) = cmd_ok s.
+Proof. unfold cmd_ok. rewrite all_low_to_upper. destruct s; reflexivity. Qed.
+
+Lemma head_kept m : slen (head m) <= 510 -> cmd_ok (m_cmd m) = true -> has_prefix (head m) (msg_bytes m) = true.
+Proof.
+  intros H Hok. unfold msg_bytes. destruct (msg_bytes_full_head m) as [rest ->].
+  destruct (stake_app max_length (head m) rest H) as [r ->].
+  destruct (Trim.trim_keeps_prefix (head m) r (ends_ascii_head m Hok)) as [r' ->]. apply has_prefix_app.
 Qed.
 
 (* ====================================================================================================== *)
@@ -214,10 +253,10 @@ Lemma valid_nick_len63 n : negb (valid_nick n) = false -> slen n <= 63.
 Proof. intros H. apply negb_false_iff, valid_nick_len in H. lia. Qed.
 
 (* ---- outputs ------------------------------------------------------------------------------------------------ *)
-Definition SI (rc : list N) (m : imsg) : Prop := slen (head m) <= 510.
-Definition outI (o : omsg) : Prop := exists m, o_data o = msg_bytes m /\ slen (head m) <= 510.
+Definition SI (rc : list N) (m : imsg) : Prop := slen (head m) <= 510 /\ cmd_ok (m_cmd m) = true.
+Definition outI (o : omsg) : Prop := exists m, o_data o = msg_bytes m /\ slen (head m) <= 510 /\ cmd_ok (m_cmd m) = true.
 Lemma outI_emit n rc m : SI rc m -> outI (OMsg n (msg_bytes m) (set_of_ids rc)).
-Proof. intros H. exists m. auto. Qed.
+Proof. intros [H1 H2]. exists m. auto. Qed.
 
 (* ====================================================================================================== *)
 (* 3. Every handler                                                                                       *)
@@ -278,9 +317,14 @@ Ltac solve_PB :=
     | match goal with Hsm : pfx_small ?m, Hp : m_prefix ?m = Some ?p |- PB ?p =>
         destruct (Hsm _ Hp) as (? & ? & ?); apply PB_small; assumption end ].
 
+Ltac solve_ok :=
+  cbn [m_cmd];
+  first [ reflexivity
+        | match goal with Hc : to_upper (m_cmd ?m) = _ |- cmd_ok (m_cmd ?m) = true =>
+            rewrite <- (cmd_ok_to_upper (m_cmd m)), Hc; reflexivity end ].
 Ltac site2 :=
-  try solve [ unfold SI, usrmsg, srvmsg, noprefix;
-              first [ apply head_none; solve_cmd | apply head_some; [solve_PB|solve_cmd] ] ].
+  try solve [ unfold SI, usrmsg, srvmsg, noprefix; split;
+              [ first [ apply head_none; solve_cmd | apply head_some; [solve_PB|solve_cmd] ] | solve_ok ] ].
 
 Ltac inv2 :=
   unfold drop_invites;
@@ -672,7 +716,7 @@ Proof.
   destruct (BI_run net e es1 _ _ _ Hnet (BI_init net) Hh Hrun) as [HJ Hrest]. cbn [intact_history] in Hrest.
   destruct Hrest as (_ & Hsm & _).
   destruct (intact_entry net e sv en sv' out Hnet HJ Hsm Ha) as [HF _]. rewrite Forall_forall in HF.
-  destruct (HF o Ho) as (m & Hd & Hl). exists m. split; [exact Hd|]. split; [exact Hl|]. rewrite Hd. now apply head_kept.
+  destruct (HF o Ho) as (m & Hd & Hl & Hok). exists m. split; [exact Hd|]. split; [exact Hl|]. rewrite Hd. now apply head_kept.
 Qed.
 
 (* the stored user name of a client session is at most 32 bytes... the invariant also gives the weaker uniform bounds *)
